@@ -18,9 +18,26 @@ type Clause struct {
 	Line  int
 }
 
+// MustCall: `mustcall <callee> [label:] <argcond> when <cond>` in a loop block — in every iteration that reaches a
+// back edge with <cond> true (evaluated over the variables as they are at the end of the iteration), <callee> was
+// called during this iteration with arguments satisfying <argcond> ($argN; receiver first). Calls made inside an
+// inner loop are not seen (the flag is cut with the inner loop): use it for calls at the level of the loop body.
+type MustCall struct {
+	Callee  string
+	Label   string
+	ArgCond Expr
+	When    Expr
+	Text    string
+	Line    int
+	Hits    int
+	Applied int
+	Skipped int
+}
+
 type LoopContract struct {
 	Ordinal    int
 	Hint       string
+	MustCalls  []*MustCall
 	Invariants []*Clause
 	Decreases  *Clause
 	Unroll     int // >0: unroll this loop fully N times with unwinding assertion
@@ -104,7 +121,7 @@ type ContractFile struct {
 	NClauses int
 }
 
-var keywordRe = regexp.MustCompile(`^(func|extern|spec|pred|lemma|axiom|requires|ensures|invariant|decreases|loop|modifies|assert|trusted|vars|assume|call|exec|conclude|uses|use|let|callsite|order|elems|recv|wf|less|key)\b`)
+var keywordRe = regexp.MustCompile(`^(func|extern|spec|pred|lemma|axiom|requires|ensures|invariant|mustcall|decreases|loop|modifies|assert|trusted|vars|assume|call|exec|conclude|uses|use|let|callsite|order|elems|recv|wf|less|key)\b`)
 var labelRe = regexp.MustCompile(`^([A-Za-z_][A-Za-z0-9_.]*):([^:].*)$`)
 
 func ParseContractFile(path, pkg string) (*ContractFile, error) {
@@ -342,6 +359,28 @@ func ParseContractFile(path, pkg string) (*ContractFile, error) {
 				}
 			}
 			cur.Loops = append(cur.Loops, curLoop)
+		case "mustcall":
+			if curLoop == nil {
+				return nil, fmt.Errorf("%s:%d: mustcall outside loop", path, it.line)
+			}
+			f := strings.SplitN(strings.TrimSpace(rest), " ", 2)
+			wi := -1
+			if len(f) == 2 {
+				wi = strings.LastIndex(f[1], " when ")
+			}
+			if wi < 0 {
+				return nil, fmt.Errorf("%s:%d: mustcall <callee> [label:] <argcond> when <cond>", path, it.line)
+			}
+			ac, err := parseClause("assert", f[1][:wi], it.line)
+			if err != nil {
+				return nil, err
+			}
+			wc, err := parseClause("assert", f[1][wi+6:], it.line)
+			if err != nil {
+				return nil, err
+			}
+			curLoop.MustCalls = append(curLoop.MustCalls, &MustCall{Callee: f[0], Label: ac.Label, ArgCond: ac.E, When: wc.E, Text: strings.TrimSpace(f[1]), Line: it.line})
+			cf.NClauses++
 		case "invariant", "decreases":
 			if curLoop == nil {
 				return nil, fmt.Errorf("%s:%d: %s outside loop", path, it.line, kw)
